@@ -2641,6 +2641,14 @@ def _from_arrow(
                     True,
                     parameters={"__array__": "categorical"},
                 ).simplify()
+            elif isinstance(index, ak.layout.ByteMaskedArray):
+                # the offset correction of a sliced bit mask returns a byte mask
+                return ak.layout.ByteMaskedArray(
+                    index.mask,
+                    out,
+                    index.valid_when,
+                    parameters={"__array__": "categorical"},
+                ).simplify()
             else:
                 return ak.layout.UnmaskedArray(out)
             # RETURNED because 'index' has already been offset-corrected.
